@@ -158,6 +158,8 @@ class Sched(object):
 
     # ---- worker side
     def pause(self, k, st):
+        if self.killed:                 # unwinding after kill(): later line events must not park the thread again
+            raise Killed()
         self.state[k] = st
         self.back[k].release()
         self.go[k].acquire()
